@@ -22,9 +22,10 @@ structure FragModel (ext : Bool) (m : Model (Ext K)) (d : List (DomVar (Ext K)))
   cons : ∀ c ∈ m.constraints, SrcC ext d c
 
 /-- the box `b` the rewrites rely on is implied by the domains `d` of the output
-("every derived bound a rewrite relied on is enforced"; its Boolean case is `BooleanBoundsUntouched`). -/
+("every derived bound a rewrite relied on is enforced"; its Boolean case is `BooleanBoundsUntouched`).
+Only the entries of declared, used variables matter. -/
 def BoxEnforced (b : BoundsMap (Ext K)) (d : List (DomVar (Ext K))) : Prop :=
-  ∀ ρ : String → K, DomSat ρ d → BoxOK ρ b
+  ∀ ρ : String → K, DomSat ρ d → BoxOKon (inScope d) ρ b
 
 /-- the initial linearizer state. -/
 def initState {α : Type} (m : Model α) (b : BoundsMap α) (d : List (DomVar α)) : St α :=
